@@ -24,7 +24,8 @@ def get_clebsch_gordan_coeffient(j1_double:int, j2_double:int):
     j2_double = int(j2_double)
     assert j1_double>=0
     assert j2_double>=0
-    ret = _get_clebsch_gordan_coeffient_cache(j1_double, j2_double)
+    # the cached table is shared between all callers: hand out a new list of (read-only) arrays
+    ret = list(_get_clebsch_gordan_coeffient_cache(j1_double, j2_double))
     return ret
 
 
@@ -45,6 +46,7 @@ def _get_clebsch_gordan_coeffient_cache(j1_double:int, j2_double:int):
                 n2 = n + int_shift - n1
                 tmp0 = sympy.physics.quantum.cg.CG(j1_sym, -j1_sym+n1, j2_sym, -j2_sym+n2, j_sym, -j_sym+n)
                 coeff[j_double-n, j1_double-n1, j2_double-n2] = float(tmp0.doit().evalf())
+        coeff.flags.writeable = False
         ret.append((j_double, coeff))
     return ret
 
